@@ -442,6 +442,23 @@ impl Object {
     impl_logical!(or, ||);
 }
 
+/// The memory of a box that the quarantine of the verification hooks kept allocated after its release:
+/// really released now (the hooks call this when a run is over and nothing can refer to the box any more)
+#[cfg(feature = "verif")]
+pub(crate) unsafe fn verif_release_quarantined(addr: usize, ty: u8) {
+    let p = addr as *mut u8;
+    if ty == Type::Float as u8 {
+        drop_in_place(p as *mut Float);
+        dealloc(p, Layout::new::<Float>());
+    } else if ty == Type::String as u8 {
+        drop_in_place(p as *mut String);
+        dealloc(p, Layout::new::<String>());
+    } else if ty == Type::Array as u8 {
+        drop_in_place(p as *mut Array);
+        dealloc(p, Layout::new::<Array>());
+    }
+}
+
 struct Float {
     value: f64,
 }
